@@ -8,7 +8,8 @@ vectors and every arithmetic result is *premised* to fit the C++ `int` (32 bit),
 IR expressions: ('var', n) ('int', k) ('bool', b) ('un', op, e) ('bin', op, l, r) ('cmpchain', [e0, op, e1, op, e2 ...])  (python only)
                 ('and', [es]) ('or', [es]) ('ifexp', c, a, b) ('call', f, [args])
                 ('index', l, i) ('len', l) ('in', x, l) ('listlit', [es]) ('listcomp', elt, var, iter, cond)  (python only) ('iife', body)  (C++ only)
-IR statements:  ('foreach', var, l, body, index var|None) ('append', n, e) ('setitem', n, i, e)
+IR statements:  ('try', body, handler) ('setattr', obj, field, e) ('mstmt', call)
+                ('foreach', var, l, body, index var|None) ('append', n, e) ('setitem', n, i, e)
                 ('decl', type|None, n, e) ('assign', n, e) ('aug', op, n, e) ('if', c, then, else) ('while', c, body)
                 ('for', n, start, cond, step_stmt, body) ('return', e|None) ('break',) ('continue',) ('raise',) ('expr', e)
 The two front ends differ only in how they *group* and *type* - which is exactly what the property is about.
@@ -801,6 +802,19 @@ class Machine:
 			env = dict(env)
 			env[name] = ('list', (n, [z3.If(idx == bv(j), x, elems[j]) for j in range(CAP)]))
 			return [(guard, 'fall', None, env)]
+		if k == 'try':
+			# ('try', body, handler): a raise inside the body (not inside a callee: the templates raise directly) runs the handler
+			_, body, handler = st
+			before = len(self.callee_raises)
+			outs = []
+			for cond, kind, v, e2 in self.scoped(body, env, types, guard):
+				if kind == 'raise':
+					outs += self.scoped(handler, e2, types, cond)
+				else:
+					outs.append((cond, kind, v, e2))
+			if len(self.callee_raises) != before:
+				raise Unsupported('a call that may raise inside a try block')
+			return outs
 		if k == 'return':
 			v = self.expr(st[1], env, guard) if st[1] is not None else None
 			return [(guard, 'return', v, env)]
